@@ -13,7 +13,7 @@
     delPool  DeleteByPrefix(<pool dir>)
   `update` entries and commit objects are written by `bc` only (a raw `start … commit (update …)`
   is refused), which is the discipline of the code: branches.Update is only called from
-  Branch.commit.
+  Branch.commit.  `bc` runs on pool journals only (j ≥ 1; j = 0 is the lake-level pools journal).
 -/
 import Zed.Model.JournalQueue
 namespace Zed.Store
@@ -94,6 +94,14 @@ def JOp.isUpdate : JOp → Bool
   | .update .. => true
   | _ => false
 
+/-- A branch can only be created at the Nil commit or at a commit id learned from an
+    acknowledged commit of that pool (commit ids are KSUIDs: they cannot be guessed, in
+    particular not the id of a commit that is still being written). -/
+def startOK (s : Sys) (j : Nat) : JOp → Bool
+  | .update .. => false
+  | .insert _ v => j == 0 || v == 0 || s.acks.any fun a => a.pool == j && a.id == v
+  | _ => true
+
 /-- Begin a procedure (enabled only when the client has none running). -/
 def Sys.start (s : Sys) (c : Nat) (st : Start) : Sys :=
   let x := s.cl c
@@ -103,10 +111,12 @@ def Sys.start (s : Sys) (c : Nat) (st : Start) : Sys :=
     match st with
     | .load j slot => s.setClient c { x with proc := some (.jp j slot .load .rdHead), res := none }
     | .commit j slot op =>
-      if op.isUpdate then s
-      else s.setClient c { x with proc := some (.jp j slot (.commit op 0) .rdHead), res := none }
+      if startOK s j op then
+        s.setClient c { x with proc := some (.jp j slot (.commit op 0) .rdHead), res := none }
+      else s
     | .bcommit pool slot branch adds dels =>
-      s.setClient c { x with proc := some (.bc ⟨pool, slot, branch, adds, dels, 0⟩ (.lookup .rdHead)), res := none }
+      if pool = 0 then s
+      else s.setClient c { x with proc := some (.bc ⟨pool, slot, branch, adds, dels, 0⟩ (.lookup .rdHead)), res := none }
     | .create =>
       { (s.setClient c { x with proc := some (.create s.next 0), res := none }) with next := s.next + 1 }
     | .openJ j => s.setClient c { x with proc := some (.openJ j), res := none }
